@@ -1,4 +1,8 @@
 import EgVerif.Proofs.Signer
+import EgVerif.Proofs.ValidatorIR
+import EgVerif.Proofs.SignerIR
+import EgVerif.Proofs.SignerCanonIR
+import EgVerif.Proofs.SignerSignIR
 import EgVerif.Gen.FactsC06
 /-!
 # C06 — the Validator admits exactly the requests with valid JWT, signature or Basic credentials
@@ -75,6 +79,10 @@ structure Accepts (cfg : Validator.Cfg) (env : Env) (r : Request) : Prop where
     env.jwtLib.headerAlg t = some j.alg ∧ env.jwtLib.claimsOK t = true ∧ env.jwtLib.sigOK t j.alg j.secret = true
   /-- signature: `Verify` succeeds for the payload that will be forwarded -/
   sig : ∀ s, cfg.sig = some s → verify s env.crypto env.clock env.now r.std (some r.payload) = .ok ()
+  /-- OAuth2 validator in JWT mode: the bearer token names the configured algorithm, verifies under the configured secret with
+  that algorithm, and its claims are currently valid -/
+  oauth2 : ∀ o, cfg.oauth2 = some o → ∃ t, hget r.std.headers authHeader = b "Bearer " ++ t ∧
+    env.jwtLib.headerAlg t = some o.alg ∧ env.jwtLib.claimsOK t = true ∧ env.jwtLib.sigOK t o.alg o.secret = true
   /-- Basic: `Authorization: Basic base64(user ":" password)`, user id up to the first colon, pair configured -/
   basic : cfg.basic = true → ∃ tok u p, hget r.std.headers authHeader = b "Basic " ++ tok ∧
     Sha256.b64Decode tok = some (u ++ 58 :: p) ∧ 58 ∉ u ∧ env.users u p = true
@@ -126,12 +134,24 @@ theorem basic_accept_iff (users : Bytes → Bytes → Bool) (h : Header) (u : By
     have hp : parseCreds (u ++ 58 :: p) = some (u, p) := splitFirst_append p h3
     simp [stripPrefix_eq_some.mpr h1, h2, hp, h4]
 
+theorem oauthOK_iff (o : JwtCfg) (env : Env) (h : Header) :
+    Spec.jwtOK ⟨o.alg, o.secret, []⟩ { env with cookie := fun _ => none } h = true ↔
+      ∃ t, hget h authHeader = b "Bearer " ++ t ∧
+        env.jwtLib.headerAlg t = some o.alg ∧ env.jwtLib.claimsOK t = true ∧ env.jwtLib.sigOK t o.alg o.secret = true := by
+  rw [jwtOK_iff]
+  simp only [jwtToken, ne_eq, not_true_eq_false, if_false]
+  constructor
+  · rintro ⟨t, ht, rest⟩
+    exact ⟨t, stripPrefix_eq_some.mp ht, rest⟩
+  · rintro ⟨t, ht, rest⟩
+    exact ⟨t, stripPrefix_eq_some.mpr ht, rest⟩
+
 theorem accepts_iff (cfg : Validator.Cfg) (env : Env) (r : Request) : Spec.accepts cfg env r = true ↔ Accepts cfg env r := by
   unfold Spec.accepts Spec.rulesOK
   simp only [Bool.and_eq_true]
   constructor
-  · rintro ⟨⟨⟨h1, h2⟩, h3⟩, h4⟩
-    refine ⟨?_, ?_, ?_, ?_⟩
+  · rintro ⟨⟨⟨⟨h1, h2⟩, h3⟩, h5⟩, h4⟩
+    refine ⟨?_, ?_, ?_, ?_, ?_⟩
     · intro rules e rule hr
       rw [e] at h1
       exact (List.all_eq_true.mp h1) rule hr
@@ -141,6 +161,9 @@ theorem accepts_iff (cfg : Validator.Cfg) (env : Env) (r : Request) : Spec.accep
     · intro s e
       rw [e] at h3
       exact (sigValidate_iff s env r _).mp h3
+    · intro o e
+      rw [e] at h5
+      exact (oauthOK_iff o env _).mp h5
     · intro hb
       simp only [hb, Bool.not_true, Bool.false_or] at h4
       rw [← basicValidate_eq_spec] at h4
@@ -148,7 +171,7 @@ theorem accepts_iff (cfg : Validator.Cfg) (env : Env) (r : Request) : Spec.accep
       obtain ⟨tok, p, hh⟩ := (basic_accept_iff env.users _ u).mp hu
       exact ⟨tok, u, p, hh⟩
   · intro a
-    refine ⟨⟨⟨?_, ?_⟩, ?_⟩, ?_⟩
+    refine ⟨⟨⟨⟨?_, ?_⟩, ?_⟩, ?_⟩, ?_⟩
     · cases e : cfg.headers with
       | none => rfl
       | some rules => exact List.all_eq_true.mpr (a.rules rules e)
@@ -158,6 +181,9 @@ theorem accepts_iff (cfg : Validator.Cfg) (env : Env) (r : Request) : Spec.accep
     · cases e : cfg.sig with
       | none => rfl
       | some s => exact (sigValidate_iff s env r _).mpr (a.sig s e)
+    · cases e : cfg.oauth2 with
+      | none => rfl
+      | some o => exact (oauthOK_iff o env _).mpr (a.oauth2 o e)
     · cases e : cfg.basic with
       | false => rfl
       | true =>
@@ -207,11 +233,15 @@ def exEnv (sigOK basicOK : Bool) : Env :=
     clock := ⟨fun _ => [], fun _ => [], fun _ => if sigOK then some 0 else none, fun _ => some 0⟩, now := 0,
     users := fun _ _ => basicOK }
 def exReq : Request :=
-  { std := ⟨b "GET", b "/", [], [(b "X-Env", [b "prod"]), (b "Authorization", [b "Bearer x"])], b "a", [], []⟩, payload := [] }
+  { std := ⟨b "GET", b "/", [], [(b "X-Env", [b "prod"]), (b "Authorization", [b "Bearer x"])], b "a", [], [], false⟩, payload := [] }
 def exCfg : Validator.Cfg := { headers := some [⟨b "x-env", [b "prod"], none⟩], jwt := some ⟨b "HS256", [], []⟩, sig := none, basic := false }
 example : handle exCfg (exEnv true true) exReq = .pass := by decide
 example : handle { exCfg with basic := true } (exEnv true true) exReq = .invalid 401 := by decide
 example : handle { exCfg with headers := some [⟨b "x-env", [b "stage"], none⟩] } (exEnv true true) exReq = .invalid 400 := by decide
+-- OAuth2 validator in JWT mode: same bearer token, configured algorithm HS256 accepted / HS512 rejected (the toy library
+-- reports header alg HS256)
+example : handle { exCfg with oauth2 := some ⟨b "HS256", [], []⟩ } (exEnv true true) exReq = .pass := by decide
+example : handle { exCfg with oauth2 := some ⟨b "HS512", [], []⟩ } (exEnv true true) exReq = .invalid 401 := by decide
 end Example
 
 /-! ## 2. Basic credentials -/
@@ -284,6 +314,114 @@ theorem jwt_alg_pinned (c : JwtCfg) (lib : JwtLib) (cookie : Bytes → Option By
 example : jwtValidate ⟨b "HS256", [1], []⟩ ⟨fun _ => some (b "none"), fun _ => true, fun _ _ _ => true⟩ (fun _ => none)
     [(b "Authorization", [b "Bearer x.y."])] = false := by decide
 
+/-! ### 3b. "currently valid": the registered time claims `exp` / `nbf` / `iat`
+
+`JwtLib.claimsOK` is instantiated by `claimsOKAt now claims` (`Model/Validator.lean`): golang-jwt's `MapClaims.Valid`
+on the decoded claims, at `now = jwt.TimeFunc().Unix()`; `claims` (base64url + JSON decoding of the claims segment) stays
+an oracle — the judge's own parser. A claim is a `ClaimVal`: absent, a JSON number `m · 10⁻ᵉ` in **any spelling**
+(integer, fraction, exponent form), or a value of another JSON type. -/
+
+/-- `MapClaims.Valid` spelled out (seconds = the number truncated toward zero; `0` and non-numbers count as absent) -/
+theorem jwt_time_claims_iff (now : Int) (c : TimeClaims) :
+    timeClaimsOK now c = true ↔ (c.exp.secs = 0 ∨ now ≤ c.exp.secs) ∧ (c.iat.secs = 0 ∨ c.iat.secs ≤ now) ∧
+      (c.nbf.secs = 0 ∨ c.nbf.secs ≤ now) := timeClaimsOK_iff now c
+
+/-- the whole-second test on `exp` is the exact comparison of the integer clock with the rational NumericDate -/
+theorem jwt_exp_exact (now m : Int) (e : Nat) (hm : 0 ≤ m) :
+    now ≤ (ClaimVal.num m e).secs ↔ now * (10 : Int) ^ e ≤ m := exp_secs_exact now m e hm
+
+/-- `nbf` / `iat` hold from the whole second that contains them (`nbf < now + 1`): exact for integer NumericDates, less
+than one second early for fractional ones (golang-jwt truncates) -/
+theorem jwt_nbf_whole_second (now m : Int) (e : Nat) (hm : 0 ≤ m) :
+    (ClaimVal.num m e).secs ≤ now ↔ m < (now + 1) * (10 : Int) ^ e := nbf_secs_whole_second now m e hm
+
+/-- the decision depends on the number, not on how it is written (`1790738249.5` = `17907382495e-1`, `1.0e9` = `1000000000`) -/
+theorem jwt_numeric_spelling_invariant (m m' : Int) (e e' : Nat) (h : m * (10 : Int) ^ e' = m' * (10 : Int) ^ e) :
+    (ClaimVal.num m e).secs = (ClaimVal.num m' e').secs := secs_spelling_invariant m m' e e' h
+
+/-- **`jwt_expired_rejected`**: a token whose `exp` is a NumericDate in the past (`exp < now`, exact rational comparison; not
+one of the values golang-jwt reads as "absent", i.e. integer part ≠ 0) is rejected — whatever the spelling of the number,
+whatever else the token carries, even with a correct signature. -/
+theorem jwt_expired_rejected (c : JwtCfg) (lib : JwtLib) (cookie : Bytes → Option Bytes) (h : Header) (now : Int)
+    (claims : Bytes → Option TimeClaims) (t : Bytes) (tc : TimeClaims) (m : Int) (e : Nat)
+    (hlib : lib.claimsOK = claimsOKAt now claims) (ht : jwtToken c cookie h = some t) (hc : claims t = some tc)
+    (hexp : tc.exp = .num m e) (hm : 0 ≤ m) (hpresent : (ClaimVal.num m e).secs ≠ 0) (hpast : m < now * (10 : Int) ^ e) :
+    jwtValidate c lib cookie h = false := by
+  cases hv : jwtValidate c lib cookie h with
+  | false => rfl
+  | true =>
+    obtain ⟨t', h1, _, h3, _⟩ := (jwt_alg_pinned c lib cookie h).mp hv
+    rw [ht] at h1; cases h1
+    rw [hlib] at h3
+    simp only [claimsOKAt, hc] at h3
+    have := ((timeClaimsOK_iff now tc).mp h3).1
+    rw [hexp] at this
+    rcases this with h0 | hle
+    · exact absurd h0 hpresent
+    · have := (exp_secs_exact now m e hm).mp hle
+      omega
+
+/-- **`jwt_not_yet_valid_rejected`**: a token whose `nbf` lies a full second or more in the future is rejected, in every
+numeric spelling. -/
+theorem jwt_not_yet_valid_rejected (c : JwtCfg) (lib : JwtLib) (cookie : Bytes → Option Bytes) (h : Header) (now : Int)
+    (claims : Bytes → Option TimeClaims) (t : Bytes) (tc : TimeClaims) (m : Int) (e : Nat)
+    (hlib : lib.claimsOK = claimsOKAt now claims) (ht : jwtToken c cookie h = some t) (hc : claims t = some tc)
+    (hnbf : tc.nbf = .num m e) (hm : 0 ≤ m) (hpresent : (ClaimVal.num m e).secs ≠ 0)
+    (hfuture : (now + 1) * (10 : Int) ^ e ≤ m) :
+    jwtValidate c lib cookie h = false := by
+  cases hv : jwtValidate c lib cookie h with
+  | false => rfl
+  | true =>
+    obtain ⟨t', h1, _, h3, _⟩ := (jwt_alg_pinned c lib cookie h).mp hv
+    rw [ht] at h1; cases h1
+    rw [hlib] at h3
+    simp only [claimsOKAt, hc] at h3
+    have := ((timeClaimsOK_iff now tc).mp h3).2.2
+    rw [hnbf] at this
+    rcases this with h0 | hle
+    · exact absurd h0 hpresent
+    · have := (nbf_secs_whole_second now m e hm).mp hle
+      omega
+
+/-- **`jwt_time_valid_accepted`** (completeness): a token naming the configured algorithm, correctly signed, whose `exp` (if
+present) is not before `now` and whose `nbf` / `iat` (if present) are not after `now` is accepted. -/
+theorem jwt_time_valid_accepted (c : JwtCfg) (lib : JwtLib) (cookie : Bytes → Option Bytes) (h : Header) (now : Int)
+    (claims : Bytes → Option TimeClaims) (t : Bytes) (tc : TimeClaims)
+    (hlib : lib.claimsOK = claimsOKAt now claims) (ht : jwtToken c cookie h = some t) (hc : claims t = some tc)
+    (halg : lib.headerAlg t = some c.alg) (hsig : lib.sigOK t c.alg c.secret = true)
+    (hexp : tc.exp = .absent ∨ ∃ m e, tc.exp = .num m e ∧ 0 ≤ m ∧ now * (10 : Int) ^ e ≤ m)
+    (hiat : tc.iat = .absent ∨ ∃ m e, tc.iat = .num m e ∧ 0 ≤ m ∧ m ≤ now * (10 : Int) ^ e)
+    (hnbf : tc.nbf = .absent ∨ ∃ m e, tc.nbf = .num m e ∧ 0 ≤ m ∧ m ≤ now * (10 : Int) ^ e) :
+    jwtValidate c lib cookie h = true := by
+  refine (jwt_alg_pinned c lib cookie h).mpr ⟨t, ht, halg, ?_, hsig⟩
+  rw [hlib]
+  simp only [claimsOKAt, hc]
+  have early : ∀ (m : Int) (e : Nat), 0 ≤ m → m ≤ now * (10 : Int) ^ e → (ClaimVal.num m e).secs ≤ now := by
+    intro m e hm hle
+    refine (nbf_secs_whole_second now m e hm).mpr ?_
+    have := pow10_pos e
+    have : now * (10 : Int) ^ e < (now + 1) * (10 : Int) ^ e := by
+      rw [Int.add_mul]; omega
+    omega
+  refine (timeClaimsOK_iff now tc).mpr ⟨?_, ?_, ?_⟩
+  · rcases hexp with h0 | ⟨m, e, h1, hm, hle⟩
+    · left; rw [h0]; rfl
+    · right; rw [h1]; exact (exp_secs_exact now m e hm).mpr hle
+  · rcases hiat with h0 | ⟨m, e, h1, hm, hle⟩
+    · left; rw [h0]; rfl
+    · right; rw [h1]; exact early m e hm hle
+  · rcases hnbf with h0 | ⟨m, e, h1, hm, hle⟩
+    · left; rw [h0]; rfl
+    · right; rw [h1]; exact early m e hm hle
+
+-- non-vacuity: `exp = 1790738249.5` written as `17907382495e-1`, at now = 1790738250 (expired) / 1790738249 (valid);
+-- a string-typed or zero `exp` is read as "absent" by golang-jwt (observation (h) in notes/C06.md)
+example : timeClaimsOK 1790738250 ⟨.num 17907382495 1, .absent, .absent⟩ = false := by decide
+example : timeClaimsOK 1790738249 ⟨.num 17907382495 1, .absent, .num 1790738249 0⟩ = true := by decide
+example : timeClaimsOK 1790738250 ⟨.other, .absent, .absent⟩ = true := by decide
+example : (ClaimVal.num 17907382495 1).secs = (ClaimVal.num 1790738249500 3).secs :=
+  jwt_numeric_spelling_invariant _ _ _ _ (by decide)
+
 
 /-! ## 4. API signature: `Sign` → `Verify` completeness
 
@@ -302,8 +440,10 @@ the signer saw `Body == nil`).
 Hypotheses (all explicit): the key is in the store; the standard-library clock contract `ClockOK`; the literals
 are sane (`LitOK`, true for the defaults); key id and scopes contain no white space / `,` / `/` / `;` (they are
 written unescaped into the Authorization header); the header map is what net/http produces (`HeaderOK`: distinct
-canonical token keys, no `Host` key); the caller did not pre-set the content-hash header; and the hash of the empty
-string is the constant the Go code hard-wires (`sha256Empty`, checked for the executable SHA-256 by `#guard`). -/
+canonical token keys, no `Host` key); the caller did not pre-set the content-hash header; the hash of the empty
+string is the constant the Go code hard-wires (`sha256Empty`, checked for the executable SHA-256 by `#guard`); and the raw
+query parses completely (`queryErr = false`: no pair with `;` or a bad escape — since fixes/C06-signature-query-unparsed.patch
+`Sign` refuses to sign and `Verify` refuses to accept such a query). -/
 theorem verify_sign_complete (cfg : Signer.Cfg) (cr : Crypto) (clock : Clock) (now t t' : Int) (keyId secret : Bytes)
     (scopes : List Bytes) (req : Req) (body : Option Bytes)
     (hstore : storeGet keyId cfg.store = some secret)
@@ -311,9 +451,9 @@ theorem verify_sign_complete (cfg : Signer.Cfg) (cr : Crypto) (clock : Clock) (n
     (httl : cfg.ttl > 0 → -cfg.ttl ≤ now - t' ∧ now - t' ≤ cfg.ttl)
     (hid : Clean keyId) (hsc : ∀ s ∈ scopes, Clean s)
     (hok : HeaderOK req.headers) (hnone : hget req.headers cfg.lit.contentSha256 = [])
-    (hempty : cr.sha256hex [] = sha256Empty) :
+    (hempty : cr.sha256hex [] = sha256Empty) (hq : req.queryErr = false) :
     verify cfg cr clock now (sign cfg cr clock keyId secret t scopes req body) (some (body.getD [])) = .ok () :=
-  verify_sign cfg cr clock now t t' keyId secret scopes req body hstore hclock hlit httl hid hsc hok hnone hempty
+  verify_sign cfg cr clock now t t' keyId secret scopes req body hstore hclock hlit httl hid hsc hok hnone hempty hq
 
 /-- … and therefore the (repaired) Validator lets the correctly signed request through with exactly the payload
 that was signed. -/
@@ -324,16 +464,16 @@ theorem handle_accepts_signed (s : Signer.Cfg) (env : Env) (t t' : Int) (keyId s
     (httl : s.ttl > 0 → -s.ttl ≤ env.now - t' ∧ env.now - t' ≤ s.ttl)
     (hid : Clean keyId) (hsc : ∀ x ∈ scopes, Clean x)
     (hok : HeaderOK req.headers) (hnone : hget req.headers s.lit.contentSha256 = [])
-    (hempty : env.crypto.sha256hex [] = sha256Empty) :
+    (hempty : env.crypto.sha256hex [] = sha256Empty) (hq : req.queryErr = false) :
     handle { headers := none, jwt := none, sig := some s, basic := false } env
       ⟨sign s env.crypto env.clock keyId secret t scopes req body, body.getD []⟩ = .pass := by
   rw [handle_iff_all]
-  refine ⟨by simp, by simp, ?_, by simp⟩
+  refine ⟨by simp, by simp, ?_, by simp, by simp⟩
   intro s' hs'
   simp only [Option.some.injEq] at hs'
   subst hs'
   exact verify_sign_complete s env.crypto env.clock env.now t t' keyId secret scopes req body hstore hclock hlit httl hid hsc
-    hok hnone hempty
+    hok hnone hempty hq
 
 /-! ## 5. API signature: what an accepted signature covers -/
 
@@ -406,6 +546,24 @@ theorem date_scope_prefix_checked (lit : Literal) (clock : Clock) (req : Req) (c
                     exact ⟨alg, rest, cred, hsf, by simpa using halg, by simpa using hpre, ht, rfl⟩
       · cases h
 
+/-- **`accepted_query_fully_parsed`** (repaired code): an accepted request's raw query parsed completely, i.e. `req.query` — what
+the canonical query, and hence the signature, is computed from — holds **every** pair of the query that is forwarded. (Before
+`fixes/C06-signature-query-unparsed.patch`, `url.Query()` silently dropped pairs with `;` or a bad escape: they were forwarded
+without being covered by the signature, see `unparsed_query_defect`.) -/
+theorem accepted_query_fully_parsed (cfg : Signer.Cfg) (cr : Crypto) (clock : Clock) (now : Int) (req : Req) (body : Option Bytes)
+    (h : verify cfg cr clock now req body = .ok ()) : req.queryErr = false := by
+  obtain ⟨ctx, _, hi, _⟩ := verify_ok_facts cfg cr clock now req body h
+  unfold initFromSignedRequest at hi
+  cases hq : req.queryErr with
+  | false => rfl
+  | true => simp [hq] at hi
+
+/-- a query that does not parse completely is refused whatever else the request carries -/
+theorem unparsed_query_rejected (cfg : Signer.Cfg) (cr : Crypto) (clock : Clock) (now : Int) (req : Req) (body : Option Bytes)
+    (hq : req.queryErr = true) : verify cfg cr clock now req body = .error .badQuery := by
+  unfold verify initFromSignedRequest
+  simp [hq]
+
 /-- **`tamper_rejected`**. Hypotheses `hH`, `hM` idealise SHA-256 / HMAC-SHA256 as injective (collision-free);
 they are hypotheses of this theorem, not axioms, and visible here. If two requests are both accepted under the
 *same* signing context (same credential, signed-header list, signature and timestamp — e.g. the second is the first
@@ -427,6 +585,49 @@ theorem tamper_rejected (cfg : Signer.Cfg) (cr : Crypto) (clock : Clock) (now : 
   rw [k1] at k2; cases k2
   have := expectedSignature_inj cfg cr clock ctx s1 r1 r2 b1 b2 hH hM (e1.symm.trans e2)
   exact canonical_injective cfg clock ctx r1 r2 _ _ n1 n2 hsh this
+
+/-- **The parser contract behind `NoLF`, made checkable.** `noLFb` is the executable test the judge evaluates on **every**
+harness case (both harnesses; a failing case is reported as a broken contract of the trusted base): it is exactly `NoLF`. -/
+theorem nolf_contract_checked (req : Req) : noLFb req = true ↔ NoLF req := noLFb_iff req
+
+/-- … and why net/http satisfies it: any parser that takes the method, the hosts and the header values from the *lines* of
+the request head (the head split at LF; folded lines joined by a space) yields a `NoLF` request, whatever bytes arrive. -/
+theorem nolf_of_line_parser (raw : Bytes) (req : Req)
+    (fromLines : ∀ (s : Bytes), (s = req.method ∨ s = req.host ∨ s = req.urlHost ∨ ∃ e ∈ req.headers, s ∈ e.2) →
+      ∀ c ∈ s, c = 32 ∨ ∃ l ∈ splitOn 10 raw, c ∈ l) : NoLF req := NoLF_of_line_parser raw req fromLines
+
+example : noLFb ⟨b "GET", b "/", [], [(b "X-A", [b "a b"])], b "a.com", [], [], false⟩ = true := by decide
+example : noLFb ⟨b "GET", b "/", [], [(b "X-A", [[97, 10, 98]])], b "a.com", [], [], false⟩ = false := by decide
+
+/-- **`tamper_rejected_header_mode`**: for requests signed in header mode (`Authorization: … SignedHeaders=…`) the
+LF-freeness of the signed-header list follows from the parser contract, so the only hypotheses left are the judge-checked
+`noLFb` and the idealised injectivity of hash and MAC. (For presigned URLs the list is a URL-decoded query value; there
+`tamper_rejected` keeps the explicit hypothesis `hsh`.) -/
+theorem tamper_rejected_header_mode (cfg : Signer.Cfg) (cr : Crypto) (clock : Clock) (now : Int) (r1 r2 : Req) (b1 b2 : Option Bytes)
+    (ctx : Ctx)
+    (hH : Function.Injective cr.sha256hex) (hM : ∀ k, Function.Injective (cr.hmac k))
+    (i1 : initFromSignedRequest cfg.lit clock r1 = .ok ctx) (i2 : initFromSignedRequest cfg.lit clock r2 = .ok ctx)
+    (hmode : ctx.presign = false)
+    (v1 : verify cfg cr clock now r1 b1 = .ok ()) (v2 : verify cfg cr clock now r2 b2 = .ok ())
+    (n1 : noLFb r1 = true) (n2 : noLFb r2 = true) :
+    covered cfg clock ctx r1 = covered cfg clock ctx r2 ∧ hashBodyVerify cfg cr b1 = hashBodyVerify cfg cr b2 := by
+  have n1' := (noLFb_iff r1).mp n1
+  have hsh : (10 : UInt8) ∉ ctx.signedHeaders := by
+    unfold initFromSignedRequest initFromSignedRequestLax at i1
+    by_cases hq : r1.queryErr = true
+    · simp [hq] at i1
+    · simp only [hq, Bool.false_eq_true, if_false] at i1
+      by_cases ha : hget r1.headers authHeader ≠ []
+      · rw [if_pos ha] at i1
+        exact signedHeaders_no_lf_header_mode i1 n1'
+      · rw [if_neg ha] at i1
+        -- presign mode: contradicts `hmode`
+        exfalso
+        unfold initFromQuery at i1
+        simp only at i1
+        repeat' split at i1
+        all_goals first | (cases i1; simp at hmode) | cases i1
+  exact tamper_rejected cfg cr clock now r1 r2 b1 b2 ctx hH hM i1 i2 v1 v2 n1' ((noLFb_iff r2).mp n2) hsh
 
 /-- … in particular the body: unless `excludeBody` is configured, the two accepted requests carry the same body
 bytes — the body *as `Verify` read it*, which in the repaired `Handle` is the payload that is forwarded. -/
@@ -452,7 +653,7 @@ string maps to the hard-wired constant; concatenation -/
 def exCrypto : Crypto := ⟨fun x => if x = [] then sha256Empty else x, fun k x => k ++ x⟩
 def exSigCfg : Signer.Cfg := ⟨defaultLiteral, [], 600, false, [(b "AKID", b "SECRET")]⟩
 def exSReq : Req :=
-  ⟨b "POST", b "/a b", [(b "x", [b "2", b "1"])], [(b "Content-Type", [b "a  b"]), (b "X-A", [b "1", b "2"])], b "a.com:80", [], []⟩
+  ⟨b "POST", b "/a b", [(b "x", [b "2", b "1"])], [(b "Content-Type", [b "a  b"]), (b "X-A", [b "1", b "2"])], b "a.com:80", [], [], false⟩
 def exSigned (body : Option Bytes) : Req := sign exSigCfg exCrypto exClock (b "AKID") (b "SECRET") 0 [b "eu"] exSReq body
 def exVEnv : Env := { exEnv true true with crypto := exCrypto, clock := exClock, now := 5 }
 def exVCfg : Validator.Cfg := { headers := none, jwt := none, sig := some exSigCfg, basic := false }
@@ -463,7 +664,7 @@ example : verify exSigCfg exCrypto exClock 5 (exSigned (some [1, 2])) (some [1, 
   verify_sign_complete exSigCfg exCrypto exClock 5 0 0 (b "AKID") (b "SECRET") [b "eu"] exSReq (some [1, 2])
     (by decide) ⟨by decide, by decide, by decide, by decide, by unfold Clean; decide⟩ defaultLiteral_ok
     (by intro _; decide) (by unfold Clean; decide) (by unfold Clean; decide)
-    (by unfold HeaderOK KeyOK Clean; decide) (by decide) (by decide)
+    (by unfold HeaderOK KeyOK Clean; decide) (by decide) (by decide) rfl
 
 set_option maxRecDepth 100000 in
 -- the model is executable: the same fact by evaluation, and the TTL / key / tamper failures
@@ -486,6 +687,28 @@ theorem drained_body_defect :
     handle exVCfg exVEnv ⟨exSigned (some [1, 2]), [1, 2]⟩ = .pass ∧
     handle exVCfg exVEnv ⟨exSigned (some []), [9, 9, 9]⟩ = .invalid 401 := by decide
 
+/-- `Verify` with the `initFromSignedRequest` of the code before `fixes/C06-signature-query-unparsed.patch` -/
+def verifyLax (cfg : Signer.Cfg) (cr : Crypto) (clock : Clock) (now : Int) (req : Req) (body : Option Bytes) : Bool :=
+  match initFromSignedRequestLax cfg.lit clock req with
+  | .error _ => false
+  | .ok ctx =>
+    let age := now - ctx.time
+    if cfg.ttl > 0 ∧ (age < -cfg.ttl ∨ age > cfg.ttl) then false
+    else if ctx.presign = true ∧ age > ctx.expire then false
+    else match storeGet ctx.keyId cfg.store with
+      | none => false
+      | some secret => ctx.signature == expectedSignature cfg cr clock ctx secret req body
+
+set_option maxRecDepth 100000 in
+/-- **Defect of the unrepaired code** (reproduced on the real code, `corpus/C06/validator.jsonl`): the accepted request stays
+accepted when pairs that `url.Query()` cannot parse (`&admin=1;x=2`, `&z=%zz`) are appended to its raw query — the parsed
+pairs, all the signature sees, are unchanged (`queryErr := true` is the only difference in the model) — although the query that
+is forwarded changed. The repaired `verify` refuses it. -/
+theorem unparsed_query_defect :
+    verifyLax exSigCfg exCrypto exClock 5 { exSigned (some [1, 2]) with queryErr := true } (some [1, 2]) = true ∧
+    verify exSigCfg exCrypto exClock 5 { exSigned (some [1, 2]) with queryErr := true } (some [1, 2]) = .error .badQuery ∧
+    (verify exSigCfg exCrypto exClock 5 (exSigned (some [1, 2])) (some [1, 2])).toBool = true := by decide
+
 -- the hypotheses of `tamper_rejected` are satisfiable: an injective toy hash / MAC, an accepted request and the same
 -- request with an additional unsigned header
 def exCrypto2 : Crypto := ⟨fun x => x, fun k x => k ++ x⟩
@@ -502,5 +725,197 @@ example : covered exSigCfg exClock exCtx2 exSigned2
     ⟨by decide, by decide, by decide, by decide⟩ ⟨by decide, by decide, by decide, by decide⟩ (by decide)
 
 end Concrete
+
+/-! ## 7. Regenerated tie by translation — validator package (`notes/IR.md`, `harness/factextract/facts_c06_ir.go`)
+
+`Gen.FactsC06IR` (basicauth.go), `Gen.FactsC06JwtIR` (jwt.go), `Gen.FactsC06HandleIR` (validator.go), `Gen.FactsC06HdrIR`
+(httpheader/validator.go) are re-translated on every run from the current bodies of the Go functions (go/ast → Lean,
+`harness/factextract/irlib.go`); each theorem says the generated definition is the hand-written model function on
+every input and every oracle. Proofs: `Proofs/ValidatorIR.lean` (same theorem names). -/
+section ValidatorIR
+open EgVerif.Gen
+
+/-- `parseCredentials` = `parseCreds` (split at the first colon only) -/
+theorem parseCredentials_regenerated_from_source (creds : Bytes) :
+    FactsC06IR.extractionFailed = false ∧ FactsC06IR.parseCredentialsIR creds = parseCreds creds :=
+  ⟨by decide, Validator.parseCredentials_regenerated_from_source creds⟩
+
+/-- `parseBasicAuthorizationHeader` = strip the `Basic ` prefix of the Authorization header, error if absent -/
+theorem parseBasicAuthorizationHeader_regenerated_from_source (h : Header) :
+    FactsC06IR.extractionFailed = false ∧
+    FactsC06IR.parseBasicAuthorizationHeaderIR h = Validator.parseBasicAuthorizationHeader h :=
+  ⟨by decide, Validator.parseBasicAuthorizationHeader_regenerated_from_source h⟩
+
+/-- `BasicAuthValidator.Validate`: accepted iff the model accepts; the only header written is `X-AUTH-USER: <user id>` -/
+theorem basicValidate_regenerated_from_source (users : Bytes → Bytes → Bool) (h : Header) :
+    FactsC06IR.extractionFailed = false ∧
+    FactsC06IR.basicValidateIR users h = (basicValidate users h).map (fun u => [(b "X-AUTH-USER", u)]) :=
+  ⟨by decide, Validator.basicValidate_regenerated_from_source users h⟩
+
+/-- the key function handed to `jwt.Parse` pins the configured algorithm and returns the configured secret -/
+theorem jwtKeyFunc_regenerated_from_source (cfg : JwtCfg) (alg : Bytes) :
+    FactsC06JwtIR.extractionFailed = false ∧ FactsC06JwtIR.jwtKeyFuncIR cfg alg = jwtKeyFunc cfg alg :=
+  ⟨by decide, Validator.jwtKeyFunc_regenerated_from_source cfg alg⟩
+
+/-- `JWTValidator.Validate` (token source: non-empty cookie, else `Authorization: Bearer …`) returns an error iff
+`jwtValidate` rejects -/
+theorem jwtValidate_regenerated_from_source (cfg : JwtCfg) (lib : JwtLib) (cookie : Bytes → Option Bytes) (h : Header) :
+    FactsC06JwtIR.extractionFailed = false ∧ FactsC06JwtIR.jwtValidateIR cfg lib cookie h = !jwtValidate cfg lib cookie h :=
+  ⟨by decide, Validator.jwtValidate_regenerated_from_source cfg lib cookie h⟩
+
+/-- `httpheader.Validator.Validate` returns an error iff some configured header rule fails on the header's first value -/
+theorem headerValidate_regenerated_from_source (re : Bytes → Bytes → Bool) (h : Header) (rules : List HeaderRule) :
+    FactsC06HdrIR.extractionFailed = false ∧ FactsC06HdrIR.headerValidateIR re h rules = !headersOK re h rules :=
+  ⟨by decide, Validator.headerValidate_regenerated_from_source re h rules⟩
+
+/-- `Validator.Handle` for a buffered request (OAuth2 validator, if configured, in JWT mode): the returned string and the status
+of the response it sets are those of `handle` (order headers → JWT → signature → OAuth2 → Basic, first failure wins, 400 for header
+rules / 401 otherwise, `"invalid"` / `""`, `Verify` reads the payload); `prepareErrorResponse` sets exactly the status
+it is given. -/
+theorem handle_regenerated_from_source (cfg : Validator.Cfg) (env : Env) (r : Request) :
+    FactsC06HandleIR.extractionFailed = false ∧ (∀ st, FactsC06HandleIR.prepareErrorResponseIR st = some st) ∧
+    FactsC06HandleIR.handleIR cfg env r false = Validator.outcomeGo (handle cfg env r) :=
+  ⟨by decide, Validator.prepareErrorResponse_regenerated_from_source, Validator.handle_regenerated_from_source cfg env r⟩
+
+/-- `OAuth2Validator.Validate` in JWT mode (no introspection endpoint): bearer token, `jwt.Parse` with the key function literal
+(= `jwtKeyFunc`: algorithm pinned, configured secret); on success exactly the headers `oauthHeaders sub scope` are set. It accepts
+iff the model's `oauthValidate` (the `handle` branch) does. -/
+theorem oauthValidate_regenerated_from_source (cfg : JwtCfg) (lib : JwtLib) (cs : Bytes → Bytes → Bytes) (h : Header) :
+    FactsC06OAuthIR.extractionFailed = false ∧ (∀ alg, FactsC06OAuthIR.oauthKeyFuncIR cfg alg = jwtKeyFunc cfg alg) ∧
+    FactsC06OAuthIR.oauthValidateIR cfg lib none cs h =
+      (match stripPrefix (b "Bearer ") (hget h authHeader) with
+       | none => none
+       | some t => if jwtParse lib t (jwtKeyFunc cfg) then some (oauthHeaders (cs t (b "sub")) (cs t (b "scope"))) else none) ∧
+    (FactsC06OAuthIR.oauthValidateIR cfg lib none cs h).isSome = oauthValidate cfg lib h :=
+  ⟨by decide, Validator.oauthKeyFunc_regenerated_from_source cfg, Validator.oauthValidate_regenerated_from_source cfg lib cs h,
+   Validator.oauthValidate_accepts_iff cfg lib cs h⟩
+
+example : FactsC06OAuthIR.oauthValidateIR ⟨b "HS256", [1], []⟩ ⟨fun _ => some (b "HS256"), fun _ => true, fun _ _ _ => true⟩ none
+    (fun _ k => if k = b "sub" then b "alice" else []) [(b "Authorization", [b "Bearer x.y.z"])]
+    = some [(b "X-Authenticated-Userid", b "alice")] := by decide
+example : FactsC06OAuthIR.oauthValidateIR ⟨b "HS256", [1], []⟩ ⟨fun _ => some (b "none"), fun _ => true, fun _ _ _ => true⟩ none
+    (fun _ _ => []) [(b "Authorization", [b "Bearer x.y."])] = none := by decide
+
+-- non-vacuity: the generated definitions compute (accepted / rejected inputs)
+example : FactsC06IR.parseCredentialsIR (b "user:pa:ss") = some (b "user", b "pa:ss") := by decide
+example : FactsC06IR.parseCredentialsIR (b "nocolon") = none := by decide
+example : FactsC06IR.basicValidateIR (fun u p => u = b "user" && p = b "pa:ss")
+    [(b "Authorization", [b "Basic dXNlcjpwYTpzcw=="])] = some [(b "X-AUTH-USER", b "user")] := by decide
+example : FactsC06JwtIR.jwtKeyFuncIR ⟨b "HS256", [1], []⟩ (b "none") = none := by decide
+example : FactsC06HdrIR.headerValidateIR (fun _ _ => false) [(b "X-Env", [b "prod"])] [⟨b "x-env", [b "prod"], none⟩] = false := by decide
+example : FactsC06HdrIR.headerValidateIR (fun _ _ => false) [(b "X-Env", [b "prod"])] [⟨b "x-env", [b "stage"], none⟩] = true := by decide
+example : FactsC06HandleIR.handleIR exCfg (exEnv true true) exReq false = ([], none) := by decide
+example : FactsC06HandleIR.handleIR { exCfg with basic := true } (exEnv true true) exReq false = (b "invalid", some 401) := by decide
+example : FactsC06HandleIR.handleIR { exCfg with headers := some [⟨b "x-env", [b "stage"], none⟩] } (exEnv true true) exReq false
+    = (b "invalid", some 400) := by decide
+
+end ValidatorIR
+
+/-! ## 8. Regenerated tie by translation — package `pkg/util/signer` (`harness/factextract/facts_c06_signer_ir.go`)
+
+`Gen.FactsC06SignerIR.*IR` are re-translated on every run from the current bodies in `signer.go`. Proofs:
+`Proofs/SignerIR.lean`. -/
+section SignerIR
+open EgVerif.Gen
+
+/-- `getCanonicalQuery` = `canonQuery`: `Signature` parameter deleted; presign mode sets the five signature parameters
+(expires in whole seconds, `FormatInt(…, 10)`), header mode deletes them; every value list sorted; `Values.Encode` -/
+theorem getCanonicalQuery_regenerated_from_source (lit : Literal) (clock : Clock) (t : Int) (scope : Bytes)
+    (isPresign : Bool) (keyId : Bytes) (expire : Int) (signedHeaders : Bytes) (q : Header) :
+    FactsC06SignerIR.extractionFailed = false ∧
+    FactsC06SignerIR.getCanonicalQueryIR lit clock t scope isPresign keyId expire signedHeaders q =
+      canonQuery lit clock t scope (if isPresign then some ⟨keyId, expire, signedHeaders⟩ else none) q :=
+  ⟨by decide, Signer.getCanonicalQuery_regenerated_from_source lit clock t scope isPresign keyId expire signedHeaders q⟩
+
+/-- `initFromQuery` = the model's (algorithm parameter, credential split at `/` with ≥ 3 parts, **the credential's date must
+prefix the date parameter**, date and expires must parse) -/
+theorem initFromQuery_regenerated_from_source (lit : Literal) (clock : Clock) (req : Req) :
+    FactsC06SignerIR.extractionFailed = false ∧ FactsC06SignerIR.initFromQueryIR lit clock req = initFromQuery lit clock req :=
+  ⟨by decide, Signer.initFromQuery_regenerated_from_source lit clock req⟩
+
+/-- `initFromHeader` = the model's (`<alg> Credential=…, SignedHeaders=…, Signature=…`, index-based slicing ≡ the model's
+structural splitting; **the credential's date must prefix the date header**, which must parse) -/
+theorem initFromHeader_regenerated_from_source (lit : Literal) (clock : Clock) (req : Req) :
+    FactsC06SignerIR.extractionFailed = false ∧ FactsC06SignerIR.initFromHeaderIR lit clock req = initFromHeader lit clock req :=
+  ⟨by decide, Signer.initFromHeader_regenerated_from_source lit clock req⟩
+
+/-- `initFromSignedRequest` (as repaired) = the model's: **a raw query that does not parse completely is refused first**, then
+header / presign mode by the Authorization header; `ctx.CanonicalHeaders` is rebuilt from the signed-header list (`verifyLines`) -/
+theorem initFromSignedRequest_regenerated_from_source (lit : Literal) (clock : Clock) (req : Req) :
+    FactsC06SignerIR.extractionFailed = false ∧
+    FactsC06SignerIR.initFromSignedRequestIR lit clock req =
+      match initFromSignedRequest lit clock req with
+      | .error e => (some e, exceptCtx (.error .badQuery), [])
+      | .ok c => (none, c, (verifyLines req c.signedHeaders).flatten) :=
+  ⟨by decide, Signer.initFromSignedRequest_regenerated_from_source lit clock req⟩
+
+/-- `Signer.Verify` = `verify`: TTL window `-ttl ≤ now − t ≤ ttl` when a TTL is set, presign expiry, key lookup, body hash
+recomputed (`hashBody(req, true)`), recomputed signature compared for (in)equality, errors in this order -/
+theorem verify_regenerated_from_source (cfg : Signer.Cfg) (cr : Crypto) (clock : Clock) (now : Int) (req : Req) (body : Option Bytes) :
+    FactsC06SignerIR.extractionFailed = false ∧ FactsC06SignerIR.verifyIR cfg cr clock now req body = verify cfg cr clock now req body :=
+  ⟨by decide, Signer.verify_regenerated_from_source cfg cr clock now req body⟩
+
+set_option maxRecDepth 100000 in
+-- non-vacuity: the generated `Verify` accepts the signed example request and rejects it outside the TTL window
+example : (FactsC06SignerIR.verifyIR exSigCfg exCrypto exClock 5 (exSigned (some [1, 2])) (some [1, 2])).toBool = true := by decide
+set_option maxRecDepth 100000 in
+example : FactsC06SignerIR.verifyIR exSigCfg exCrypto exClock 601000000000 (exSigned none) (some []) = .error .expired := by decide
+example : (FactsC06SignerIR.getCanonicalQueryIR defaultLiteral exClock 0 (b "s") false [] 0 []
+    [(b "x", [b "2", b "1"]), (b "X-Me-Signature", [b "zz"])]).1 = b "x=1&x=2" := by decide
+
+/-- the `noEscapeChars` table that `init()` fills is `isUnreserved` (A–Z a–z 0–9 `-` `.` `_` `~`) -/
+theorem noEscape_regenerated_from_source (c : UInt8) :
+    FactsC06CanonIR.extractionFailed = false ∧ FactsC06CanonIR.noEscapeIR (Int.ofNat c.toNat) = isUnreserved c :=
+  ⟨by decide, Signer.noEscape_regenerated_from_source c⟩
+
+/-- `buildCanonicalURI` (byte loop: unreserved bytes and `/` copied, everything else `%XX` upper-case hex; empty path → `/`)
+= `canonURI`, for `u.Opaque = ""` (true for every request that reaches a filter; the judge checks it on every case) -/
+theorem buildCanonicalURI_regenerated_from_source (epath : Bytes) :
+    FactsC06CanonIR.extractionFailed = false ∧ FactsC06CanonIR.buildCanonicalURIIR [] epath = canonURI epath :=
+  ⟨by decide, Signer.buildCanonicalURI_regenerated_from_source epath⟩
+
+/-- `buildCanonicalHeaders` (no header hoisting): host first, every non-ignored header as (lower-cased name, canonical value),
+sorted by name (`sort.Slice` as an oracle with the stated contract), names joined by `;`, lines `name:value\n`; the query is
+not touched -/
+theorem buildCanonicalHeaders_regenerated_from_source (cfg : Signer.Cfg) (req : Req) (q : Header) :
+    FactsC06CanonIR.extractionFailed = false ∧
+    FactsC06CanonIR.buildCanonicalHeadersIR cfg (fun _ => false) req q =
+      (signedHeadersOf (signPairs cfg req), canonHeadersOf (signPairs cfg req), q) :=
+  ⟨by decide, Signer.buildCanonicalHeaders_regenerated_from_source cfg req q⟩
+
+/-- `getHost` = the model's: `req.Host`, else `URL.Host`; an empty or default port (`:80` for http, `:443` for https) is cut off -/
+theorem getHost_regenerated_from_source (req : Req) :
+    FactsC06CanonIR.extractionFailed = false ∧ FactsC06CanonIR.getHostIR req = getHost req :=
+  ⟨by decide, Signer.getHost_regenerated_from_source req⟩
+
+example : FactsC06CanonIR.getHostIR ⟨b "GET", b "/", [], [], b "a.com:80", [], b "HTTP", false⟩ = b "a.com" := by decide
+example : FactsC06CanonIR.getHostIR ⟨b "GET", b "/", [], [], [], b "[::1]:8080", b "http", false⟩ = b "[::1]:8080" := by decide
+example : FactsC06CanonIR.buildCanonicalURIIR [] (b "/a b/~u") = b "/a%20b/~u" := by decide
+example : FactsC06CanonIR.buildCanonicalURIIR [] [] = b "/" := by decide
+example : (FactsC06CanonIR.buildCanonicalHeadersIR exSigCfg (fun _ => false) exSReq []).1 = b "content-type;host;x-a" := by decide
+
+/-- what is hashed and MAC'ed, and in which order (`Gen.FactsC06SignIR`): `buildScopeString` = `scopeString`, `deriveSigningKey` =
+the model's HMAC chain, `hashCanonicalRequest` = SHA-256 of `canonicalRequest`, `sign` = hex ∘ HMAC of `stringToSign`; hence the
+model's `signature` is exactly what the four Go functions compute together. -/
+theorem signature_regenerated_from_source (lit : Literal) (cr : Crypto) (clock : Clock) (secret : Bytes) (now t : Int)
+    (scopes : List Bytes) (m uri cq ch sh bh : Bytes) :
+    FactsC06SignIR.extractionFailed = false ∧
+    FactsC06SignIR.buildScopeStringIR lit clock false now t scopes = (scopeString lit clock t scopes, t) ∧
+    FactsC06SignIR.deriveSigningKeyIR lit cr clock secret t scopes = deriveSigningKey lit cr clock secret t scopes ∧
+    FactsC06SignIR.hashCanonicalRequestIR cr m uri cq ch sh bh = cr.sha256hex (canonicalRequest m uri cq ch sh bh) ∧
+    (∀ scope hcr key, FactsC06SignIR.signIR lit cr clock t scope hcr key = Sha256.hex (cr.hmac key (stringToSign lit clock t scope hcr))) ∧
+    FactsC06SignIR.signIR lit cr clock t (FactsC06SignIR.buildScopeStringIR lit clock false now t scopes).1
+        (FactsC06SignIR.hashCanonicalRequestIR cr m uri cq ch sh bh) (FactsC06SignIR.deriveSigningKeyIR lit cr clock secret t scopes)
+      = signature lit cr clock secret t scopes (canonicalRequest m uri cq ch sh bh) :=
+  ⟨by decide, Signer.buildScopeString_regenerated_from_source lit clock now t scopes,
+   Signer.deriveSigningKey_regenerated_from_source lit cr clock secret t scopes,
+   Signer.hashCanonicalRequest_regenerated_from_source cr m uri cq ch sh bh,
+   fun scope hcr key => Signer.sign_regenerated_from_source lit cr clock t scope hcr key,
+   Signer.signature_regenerated_from_source lit cr clock secret now t scopes m uri cq ch sh bh⟩
+
+example : (FactsC06SignIR.buildScopeStringIR defaultLiteral exClock false 0 0 [b "eu", b "s3"]).1 = b "20220101/eu/s3/megaease_request" := by
+  decide
+
+end SignerIR
 
 end EgVerif.C06
